@@ -146,6 +146,13 @@ func (g *Gates) Sleep(d time.Duration) {
 	g.mu.Unlock()
 }
 
+// SleepArmed advances virtual time with the gates armed: goroutines started by timers that fire meanwhile park like any
+// other (used by the replay of model behaviours, where the model's next step is the release of exactly that goroutine).
+func (g *Gates) SleepArmed(d time.Duration) {
+	time.Sleep(d)
+	synctest.Wait()
+}
+
 func (g *Gates) at(point string, id any) {
 	if point == "log" { // every debug statement of the library is a yield point named after its format string
 		f, _ := id.(string)
